@@ -94,6 +94,20 @@ def r1_temp_then_rename(chk, repo):
                       site_text=f"{f.qualname}: {what} under self.tempdirname",
                       site={"function": f.qualname, "construct": head(stmt_of(c), 160)})
     chk.floor("C04.R1", "write sites in FileSaver", n_writes, 4)
+    # the temporary directory starts empty: whatever an interrupted writer left there is removed
+    icfg = cfg_of(init)
+    mks = [n for n in icfg.stmt_nodes() if not isinstance(n.stmt, COMPOUND) and node_calls(n, lambda c, nm: nm in ("os.makedirs", "os.mkdir") and c.args and norm(c.args[0]) == "self.tempdirname")]
+    chk.check(len(mks) >= 1, "C04.R1", init, None, "FileSaver.__init__ no longer creates the temporary directory", site_text="FileSaver.__init__: makedirs(tempdirname)")
+
+    def _fresh(n):
+        if n.kind == "guard" and n.test is not None:
+            return ("os.path.exists(self.tempdirname)", False) in literals(n.test, n.polarity)
+        return n.kind == "stmt" and not isinstance(n.stmt, COMPOUND) and node_calls(n, lambda c, nm: nm == "shutil.rmtree" and c.args and norm(c.args[0]) == "self.tempdirname")
+
+    for mk in mks:
+        okp, path = icfg.every_path([icfg.entry], [mk], _fresh, "n")
+        chk.check(okp, "C04.R1", init, mk.stmt, "the temporary directory is (re)used without removing what an interrupted writer left in it: stale chunk files / per-chunk metadata get merged into the new data",
+                  site_text="FileSaver.__init__: stale tempdir removed on every path before it is created", site={"function": init.qualname, "rule": "tempdir starts empty"})
     # rename in _close
     close = fs.methods.get("_close")
     chk.need(close is not None, "C04.R1: FileSaver._close not found")
@@ -475,18 +489,26 @@ def r5_close_in_exception_context(chk, repo):
 
 
 # ------------------------------------------------------------------------------------ R6
-def r6_failed_save(chk, repo):
-    chk.describe("C04.R6", "a failing save is recorded on the saver and re-raised; a closed saver refuses further chunks")
+def failure_recorded(chk, repo, rule):
     sf = repo.func("Saver.save_from", COMMON)
     cfg = cfg_of(sf)
     hs = catch_all_handlers(sf.node)
-    chk.check(len(hs) >= 1, "C04.R6", sf, None, "Saver.save_from has no handler for failures of save()", site_text="Saver.save_from: catch-all handler present")
+    chk.check(len(hs) >= 1, rule, sf, None, "Saver.save_from has no handler for failures of save()", site_text="Saver.save_from: catch-all handler present")
     for h in hs:
         body = handler_body_nodes(cfg, h)
         rec = [n for n in body if n.kind == "stmt" and isinstance(n.stmt, ast.Assign) and any(norm(t) == "self.got_exception" for t in n.stmt.targets) and norm(n.stmt.value) == h.name]
-        chk.check(bool(rec), "C04.R6", sf, h, "caught exception is not recorded in got_exception (the processor cannot report the failed save)", site_text="Saver.save_from: got_exception = e")
+        chk.check(bool(rec), rule, sf, h, "caught exception is not recorded in got_exception (the processor cannot report the failed save)", site_text="Saver.save_from: got_exception = e")
+        hentry = cfg.nodes_of(h)
+        outside = {m for n in list(body) + hentry for m, k in cfg.succ[n] if m not in body and m not in hentry}
+        okr, _ = cfg.every_path(hentry, outside, lambda n: n in rec, "nrx")
+        chk.check(bool(rec) and okr, rule, sf, h, "the handler can be left (for instance by the exception that source.throw() re-raises) before the failure is recorded in got_exception: the processor's final saver check sees nothing", site_text="Saver.save_from: got_exception recorded on every way out of the handler", site={"function": sf.qualname, "rule": "recorded before anything in the handler can raise"})
         ok, _ = handler_paths_pass(cfg, h, lambda n: False, "n")
-        chk.check(ok, "C04.R6", sf, h, "handler can complete normally: the failed save is not re-raised", site_text="Saver.save_from: handler always raises")
+        chk.check(ok, rule, sf, h, "handler can complete normally: the failed save is not re-raised", site_text="Saver.save_from: handler always raises")
+
+
+def r6_failed_save(chk, repo):
+    chk.describe("C04.R6", "a failing save is recorded on the saver and re-raised; a closed saver refuses further chunks")
+    failure_recorded(chk, repo, "C04.R6")
     sv = repo.func("Saver.save", COMMON)
     scfg = cfg_of(sv)
     hits = [n for n in scfg.stmt_nodes() if isinstance(n.stmt, ast.Raise) and ("self.closed", True) in scfg.guard_facts(n)]
@@ -498,6 +520,11 @@ def r6_failed_save(chk, repo):
 
 
 WITNESSES = [
+    W("failure recorded only after throwing it back", "C04.R6", COMMON,
+      "self.got_exception = e\n            # Throw the exception back into the mailbox\n            # (hoping that it is still listening...)\n            source.throw(e)",
+      "source.throw(e)\n            self.got_exception = e"),
+    W("stale temp directory reused", "C04.R1", FILES,
+      "shutil.rmtree(self.tempdirname)\n        os.makedirs(self.tempdirname)", "pass\n        os.makedirs(self.tempdirname, exist_ok=True)"),
     W("write a chunk under the final directory", "C04.R1", FILES,
       "fn = os.path.join(self.tempdirname, filename)", "fn = os.path.join(self.dirname, filename)"),
     W("rename before the final metadata flush", "C04.R1", FILES,
